@@ -215,16 +215,26 @@ fn u9_strip_noops() {
 /// `record_branch_targets` marks exactly the targets; `count_temps` is one more than the largest
 /// temporary index mentioned (0 if none).
 #[kani::proof]
-#[kani::unwind(5)]
+#[kani::unwind(7)]
 fn u9_targets_and_count_temps() {
     let (d, a, b) = (any_loc(false), any_loc(true), any_loc(true));
     let c: isize = kani::any();
     let off: isize = kani::any();
     kani::assume(-1 <= off && off <= 2);
     let mut v: Vec<Instr<u8>> = Vec::with_capacity(3);
-    v.push(Instr::Mul(d, a, b));
-    v.push(Instr::BrNZ(c, off));
-    v.push(Instr::Copy(d, b));
+    // every arm of the real `match` is reachable: the arithmetic kind and the branch kind are
+    // symbolic, and the copy has operands of its own (its temporaries may be the largest ones)
+    let (d2, b2) = (any_loc(false), any_loc(true));
+    let kind: u8 = kani::any();
+    kani::assume(kind < 3);
+    let brz: bool = kani::any();
+    v.push(match kind {
+        0 => Instr::Add(d, a, b),
+        1 => Instr::Sub(d, a, b),
+        _ => Instr::Mul(d, a, b),
+    });
+    v.push(if brz { Instr::BrZ(c, off) } else { Instr::BrNZ(c, off) });
+    v.push(Instr::Copy(d2, b2));
     let mut raw = MaybeUninit::<CodeGen<u8>>::uninit();
     unsafe {
         addr_of_mut!((*raw.as_mut_ptr()).insts).write(v);
@@ -238,7 +248,7 @@ fn u9_targets_and_count_temps() {
     assert!(cg.is_target[t] == (t as isize == 1 + off));
     let n = cg.count_temps();
     let mut want = 0;
-    for l in [d, a, b] {
+    for l in [d, a, b, d2, b2] {
         if let Loc::Tmp(x) = l {
             if x + 1 > want {
                 want = x + 1;
